@@ -317,6 +317,14 @@ def r17_4(ctx):
             in_drop = b in drops
             fld = [s[1] for s in tr.steps if s[0] == "field"]
             ctx.ob(f"from_raw:{b.name}:in-drop", in_drop and bool(fld), site(b, bb), f"raw field `{fld[:1]}` is freed in Drop" if in_drop else "a raw pointer is re-boxed outside Drop (double free / use after free risk)")
+            if in_drop:
+                # no early way out of Drop: every path to its return frees the box (and deletes the parser)
+                every = b.must_pass(0, b.return_blocks(), [bb])
+                ctx.ob(f"from_raw:{b.name}:on-every-path-of-drop", every, site(b, bb), "Drop frees the read state on every path" if every else "Drop can return without freeing the read state (leak, and libyaml's parser keeps a dangling-to-be pointer alive)")
+                for db, dt in b.calls():
+                    if (fn_of(dt) or {}).get("name", "").endswith("_delete"):
+                        every_d = b.must_pass(0, b.return_blocks(), [db])
+                        ctx.ob(f"delete:{b.name}:on-every-path-of-drop", every_d, site(b, db), "Drop deletes libyaml's parser on every path" if every_d else "Drop can return without deleting libyaml's parser (its buffers leak)")
             dels = [(db, dt) for db, dt in b.calls() if (fn_of(dt) or {}).get("name", "").endswith("_delete")]
             ok = bool(dels) and all(b.dominates(db, bb) and db != bb for db, _ in dels)
             ctx.ob(f"from_raw:{b.name}:delete-before-free", ok, site(b, bb), "libyaml's parser is deleted before the read state it points to is freed" if ok else "the read state is freed while libyaml's parser may still reference it")
